@@ -1,0 +1,170 @@
+//go:build verif
+
+// API placeholders for the geometry-level predicates: named spec predicates (uninterpreted here; definitions, where the
+// meaning is combinatorial, live in zz_contracts_rel_verif.go) and trusted method contracts that are REPLACED by the
+// proved contracts of the same key in other *_verif.go files. The object layer of package geojson is specified against these names.
+
+package geometry
+
+//@ spec func pointContainsPointS(p Point, q Point) bool
+//@ spec func pointContainsRectS(p Point, o Rect) bool
+//@ spec func pointContainsLineS(p Point, m *Line) bool
+//@ spec func pointContainsPolyS(p Point, Q *Poly) bool
+//@ spec func pointIntersectsPointS(p Point, q Point) bool
+//@ spec func pointIntersectsRectS(p Point, o Rect) bool
+//@ spec func pointIntersectsLineS(p Point, m *Line) bool
+//@ spec func pointIntersectsPolyS(p Point, Q *Poly) bool
+
+//@ spec func rectContainsPointS(r Rect, q Point) bool
+//@ spec func rectContainsRectS(r Rect, o Rect) bool
+//@ spec func rectContainsLineS(r Rect, m *Line) bool
+//@ spec func rectContainsPolyS(r Rect, Q *Poly) bool
+//@ spec func rectIntersectsPointS(r Rect, q Point) bool
+//@ spec func rectIntersectsRectS(r Rect, o Rect) bool
+//@ spec func rectIntersectsLineS(r Rect, m *Line) bool
+//@ spec func rectIntersectsPolyS(r Rect, Q *Poly) bool
+
+//@ spec func lineContainsPointS(l *Line, q Point) bool
+//@ spec func lineContainsRectS(l *Line, o Rect) bool
+//@ spec func lineContainsLineS(l *Line, m *Line) bool
+//@ spec func lineContainsPolyS(l *Line, Q *Poly) bool
+//@ spec func lineIntersectsPointS(l *Line, q Point) bool
+//@ spec func lineIntersectsRectS(l *Line, o Rect) bool
+//@ spec func lineIntersectsLineS(l *Line, m *Line) bool
+//@ spec func lineIntersectsPolyS(l *Line, Q *Poly) bool
+
+//@ spec func polyContainsPointS(P *Poly, q Point) bool
+//@ spec func polyContainsRectS(P *Poly, o Rect) bool
+//@ spec func polyContainsLineS(P *Poly, m *Line) bool
+//@ spec func polyContainsPolyS(P *Poly, Q *Poly) bool
+//@ spec func polyIntersectsPointS(P *Poly, q Point) bool
+//@ spec func polyIntersectsRectS(P *Poly, o Rect) bool
+//@ spec func polyIntersectsLineS(P *Poly, m *Line) bool
+//@ spec func polyIntersectsPolyS(P *Poly, Q *Poly) bool
+
+//@ func Point.ContainsRect
+//@   props C02 C03
+//@   trusted placeholder until the relational contracts (zz_contracts_rel_verif.go) prove this method
+//@   ensures result == pointContainsRectS(point, rect)
+
+//@ func Point.ContainsLine
+//@   props C02 C03
+//@   trusted placeholder until the relational contracts (zz_contracts_rel_verif.go) prove this method
+//@   requires line != nil ==> LineInv(line)
+//@   ensures result == pointContainsLineS(point, line)
+
+//@ func Point.ContainsPoly
+//@   props C02 C03
+//@   trusted placeholder until the relational contracts (zz_contracts_rel_verif.go) prove this method
+//@   requires poly != nil ==> PolyInv(poly)
+//@   ensures result == pointContainsPolyS(point, poly)
+
+//@ func Rect.ContainsRect
+//@   props C02 C03
+//@   trusted placeholder until the relational contracts (zz_contracts_rel_verif.go) prove this method
+//@   ensures result == rectContainsRectS(rect, other)
+
+//@ func Rect.ContainsLine
+//@   props C02 C03
+//@   trusted placeholder until the relational contracts (zz_contracts_rel_verif.go) prove this method
+//@   requires line != nil ==> LineInv(line)
+//@   ensures result == rectContainsLineS(rect, line)
+
+//@ func Rect.ContainsPoly
+//@   props C02 C03
+//@   trusted placeholder until the relational contracts (zz_contracts_rel_verif.go) prove this method
+//@   requires poly != nil ==> PolyInv(poly)
+//@   ensures result == rectContainsPolyS(rect, poly)
+
+//@ func Rect.IntersectsLine
+//@   props C02 C03
+//@   trusted placeholder until the relational contracts (zz_contracts_rel_verif.go) prove this method
+//@   requires line != nil ==> LineInv(line)
+//@   ensures result == rectIntersectsLineS(rect, line)
+
+//@ func Rect.IntersectsPoly
+//@   props C02 C03
+//@   trusted placeholder until the relational contracts (zz_contracts_rel_verif.go) prove this method
+//@   requires poly != nil ==> PolyInv(poly)
+//@   ensures result == rectIntersectsPolyS(rect, poly)
+
+//@ func Line.ContainsRect
+//@   props C02 C03
+//@   trusted placeholder until the relational contracts (zz_contracts_rel_verif.go) prove this method
+//@   requires line != nil ==> LineInv(line)
+//@   ensures result == lineContainsRectS(line, rect)
+
+//@ func Line.ContainsLine
+//@   props C02 C03
+//@   trusted placeholder until the relational contracts (zz_contracts_rel_verif.go) prove this method
+//@   requires line != nil ==> LineInv(line)
+//@   requires other != nil ==> LineInv(other)
+//@   ensures result == lineContainsLineS(line, other)
+
+//@ func Line.ContainsPoly
+//@   props C02 C03
+//@   trusted placeholder until the relational contracts (zz_contracts_rel_verif.go) prove this method
+//@   requires line != nil ==> LineInv(line)
+//@   requires poly != nil ==> PolyInv(poly)
+//@   ensures result == lineContainsPolyS(line, poly)
+
+//@ func Line.IntersectsRect
+//@   props C02 C03
+//@   trusted placeholder until the relational contracts (zz_contracts_rel_verif.go) prove this method
+//@   requires line != nil ==> LineInv(line)
+//@   ensures result == lineIntersectsRectS(line, rect)
+
+//@ func Line.IntersectsLine
+//@   props C02 C03
+//@   trusted placeholder until the relational contracts (zz_contracts_rel_verif.go) prove this method
+//@   requires line != nil ==> LineInv(line)
+//@   requires other != nil ==> LineInv(other)
+//@   ensures result == lineIntersectsLineS(line, other)
+
+//@ func Line.IntersectsPoly
+//@   props C02 C03
+//@   trusted placeholder until the relational contracts (zz_contracts_rel_verif.go) prove this method
+//@   requires line != nil ==> LineInv(line)
+//@   requires poly != nil ==> PolyInv(poly)
+//@   ensures result == lineIntersectsPolyS(line, poly)
+
+//@ func Poly.ContainsRect
+//@   props C02 C03
+//@   trusted placeholder until the relational contracts (zz_contracts_rel_verif.go) prove this method
+//@   requires poly != nil ==> PolyInv(poly)
+//@   ensures result == polyContainsRectS(poly, rect)
+
+//@ func Poly.ContainsLine
+//@   props C02 C03
+//@   trusted placeholder until the relational contracts (zz_contracts_rel_verif.go) prove this method
+//@   requires poly != nil ==> PolyInv(poly)
+//@   requires line != nil ==> LineInv(line)
+//@   ensures result == polyContainsLineS(poly, line)
+
+//@ func Poly.ContainsPoly
+//@   props C02 C03
+//@   trusted placeholder until the relational contracts (zz_contracts_rel_verif.go) prove this method
+//@   requires poly != nil ==> PolyInv(poly)
+//@   requires other != nil ==> PolyInv(other)
+//@   ensures result == polyContainsPolyS(poly, other)
+
+//@ func Poly.IntersectsRect
+//@   props C02 C03
+//@   trusted placeholder until the relational contracts (zz_contracts_rel_verif.go) prove this method
+//@   requires poly != nil ==> PolyInv(poly)
+//@   ensures result == polyIntersectsRectS(poly, rect)
+
+//@ func Poly.IntersectsLine
+//@   props C02 C03
+//@   trusted placeholder until the relational contracts (zz_contracts_rel_verif.go) prove this method
+//@   requires poly != nil ==> PolyInv(poly)
+//@   requires line != nil ==> LineInv(line)
+//@   ensures result == polyIntersectsLineS(poly, line)
+
+//@ func Poly.IntersectsPoly
+//@   props C02 C03
+//@   trusted placeholder until the relational contracts (zz_contracts_rel_verif.go) prove this method
+//@   requires poly != nil ==> PolyInv(poly)
+//@   requires other != nil ==> PolyInv(other)
+//@   ensures result == polyIntersectsPolyS(poly, other)
+
